@@ -116,7 +116,7 @@ PROPS["C16"] = {
     "domains": [{"name": "ser", "n_quick": 2500, "n_thorough": 60000},
                 {"name": "set", "n_quick": 500, "n_thorough": 5000},
                 # exhaustive: every prefix+suffix up to the bound (the count is the cap, above the total)
-                {"name": "serx", "n_quick": 120000, "n_thorough": 1400000}],
+                {"name": "serx", "n_quick": 140000, "n_thorough": 1800000}],
     "lean_modules": ["SMD.Properties.C16"],
     "theorems": [],
     "assumptions": ["the JSON text layer (jsoniter lexer, escaping, number formatting) is external: the model's printer/reader covers standard JSON with numbers whose shortest decimal form is exact; other payloads are answered 'unsupported' by the model and judged on the implementation only"],
